@@ -11,9 +11,9 @@ git diff -- src/ Cargo.toml > /tmp/seedeval-$ID.diff
 suite=$(cargo test --offline --lib 2>&1 | grep "^test result" | head -1)
 doc=$(cargo test --offline --doc 2>&1 | grep "^test result" | head -1)
 with=$(cargo test --offline --test seeded_demo 2>&1 | grep "^test result" | head -1)
-git stash push -q src/ Cargo.toml 2>/dev/null || git stash push -q src/
+git checkout -q -- src/ Cargo.toml
 without=$(cargo test --offline --test seeded_demo 2>&1 | grep "^test result" | head -1)
-git stash pop -q
+git apply /tmp/seedeval-$ID.diff
 echo "suite(with change): $suite"; echo "doc(with change): $doc"; echo "demo with change: $with"; echo "demo without:     $without"
 case "$suite" in *"133 passed; 0 failed"*) ;; *) echo "REJECT: existing suite changed"; exit 1;; esac
 case "$with" in *FAILED*) ;; *) echo "REJECT: demo does not fail with the change"; exit 1;; esac
